@@ -141,9 +141,14 @@ def transposed(res, pres):
     if res is None or res[0] != 'map':
         return False, f'returned value is {T.brief(res, 160) if res else None}'
     key, elt = res[1], res[2]
-    if key[0] != 'zip' or len(key[1]) != 1 or key[1][0][0] != 'over' or key[1][0][1][0] != 'starred':
+    star = None
+    if key[0] == 'range' and key[2][0] == 'len' and key[2][1][0] == 'starred':
+        star = key[2][1][1]
+    elif key[0] == 'zip' and len(key[1]) == 1 and key[1][0][0] == 'over' and key[1][0][1][0] == 'starred':
+        star = key[1][0][1][1]
+    if star is None:
         return False, f'not a zip(*rows) transposition: {T.brief(key, 120)}'
-    ok, why = grp.collected_in_order(key[1][0][1][1], pres)
+    ok, why = grp.collected_in_order(star, pres)
     if not ok:
         return False, why
     return True, 'zip(*list(pool result)) -> list per column'
